@@ -117,12 +117,17 @@ def specs(tier="quick", syms=None, ranks=(1, 2, 3, 4), fermionic=(False, True), 
     return out
 
 
-def partner(spec, ncon, nfree=1, charge=None, drop="none", tag="y"):
-    """an array whose first `ncon` indices are the conjugates of spec's last `ncon` indices, plus `nfree` free ones"""
+def partner(spec, ncon, nfree=1, charge=None, drop="none", tag="y", crossed=False):
+    """an array whose first `ncon` indices are the conjugates of spec's last `ncon` indices (in reversed order when `crossed`),
+    plus `nfree` free ones"""
     sym = spec.sym
     model = Model(sym)
-    duals = tuple(not d for d in spec.duals[spec.ndim - ncon:]) + tuple(bool(i % 2) for i in range(nfree))
-    tabs = tuple(spec.tables[spec.ndim - ncon:]) + tuple(TABLES[sym][(4 - i) % 5] for i in range(nfree))
+    cd = [not d for d in spec.duals[spec.ndim - ncon:]]
+    ct = list(spec.tables[spec.ndim - ncon:])
+    if crossed:
+        cd, ct = cd[::-1], ct[::-1]
+    duals = tuple(cd) + tuple(bool(i % 2) for i in range(nfree))
+    tabs = tuple(ct) + tuple(TABLES[sym][(4 - i) % 5] for i in range(nfree))
     for ch in ([charge] if charge is not None else [model.combine(), NONTRIVIAL[sym]]):
         sp = Spec(sym, duals, ch, tabs, drop=drop, fermionic=spec.fermionic, signs=(1 if spec.fermionic else 0), tag=tag, label=2)
         if sp.sectors():
